@@ -178,11 +178,46 @@ fn history(dshards: usize, vshards: usize, max_idle: usize, seed: u64, steps: us
     }
 }
 
+/// every history runs in its own thread under a watchdog: a submission or retrieval that never returns fails the test
+fn guarded<F: FnOnce() + Send + 'static>(what: String, f: F) {
+    let (tx, rx) = mpsc::channel();
+    std::thread::spawn(move || { f(); let _ = tx.send(()); });
+    match rx.recv_timeout(Duration::from_secs(120)) {
+        Ok(()) => {}
+        Err(mpsc::RecvTimeoutError::Timeout) => panic!("no completion within 120 s (deadlock / lost result): {}", what),
+        Err(mpsc::RecvTimeoutError::Disconnected) => panic!("the history failed: {}", what),
+    }
+}
+
 #[test]
 fn replay() {
     for method in [PositionalMetricType::IoU(0.3), PositionalMetricType::Mahalanobis] {
-        for (d, v) in [(1usize, 1usize), (2, 1), (1, 2), (2, 3)] { for max_idle in [0usize, 2] { for seed in 0..4u64 { history(d, v, max_idle, seed, 40, method); } } }
+        for (d, v) in [(1usize, 1usize), (2, 1), (1, 2), (2, 3)] { for max_idle in [0usize, 2] { for seed in 0..4u64 {
+            guarded(format!("shards {} voting {} idle {} seed {} {:?}", d, v, max_idle, seed, method), move || history(d, v, max_idle, seed, 40, method));
+        } } }
     }
+}
+
+/// weak overlaps against configured IoU thresholds on both sides of the default 0.3: the batch tracker must decide like the
+/// simple tracker (continue iff IoU x confidence >= the CONFIGURED threshold)
+#[test]
+fn replay_thresholds() {
+    for thr in [0.1f32, 0.2, 0.3, 0.45] { for shift in [2.0f32, 4.0, 5.0, 6.0, 7.0] { for vshards in [1usize, 2] {
+        guarded(format!("threshold {} shift {} voting {}", thr, shift, vshards), move || {
+            let mut b = BatchSort::new(1, vshards, 1, 5, PositionalMetricType::IoU(thr), 0.05, None, 1.0 / 20.0, 1.0 / 160.0);
+            let mut s = Sort::new(1, 1, 5, PositionalMetricType::IoU(thr), 0.05, None, 1.0 / 20.0, 1.0 / 160.0);
+            for step in 0..2 {
+                let bb: Universal2DBox = BoundingBox::new(100.0 + shift * step as f32, 50.0, 10.0, 10.0).into();
+                let (mut req, res) = PredictionBatchRequest::<(Universal2DBox, Option<i64>)>::new();
+                req.add(3, (bb.clone(), None));
+                b.predict(req);
+                let (scene, have) = res.get();
+                let want = s.predict_with_scene(3, &[(bb, None)]);
+                assert_eq!(scene, 3);
+                assert_eq!((have[0].length, have[0].epoch), (want[0].length, want[0].epoch), "threshold {} shift {} step {}: length / epoch as the simple tracker", thr, shift, step);
+            }
+        });
+    } } }
 }
 '''
 
@@ -210,15 +245,107 @@ for (nd, ns, nv, mon, tier, lite, maha) in [(1, 0, 1, 'none', 'quick', False, Fa
                   FUNCS, spec_calls=_s._calls, replay=replay_batch, max_paths=200000, timeout=3000))
 
 
+VISUAL_BATCH_REPLAY = r'''
+use similari::trackers::batch::PredictionBatchRequest;
+use similari::trackers::sort::{PositionalMetricType, SortTrack};
+use similari::trackers::tracker_api::TrackerAPI;
+use similari::trackers::visual_sort::batch_api::BatchVisualSort;
+use similari::trackers::visual_sort::metric::VisualSortMetricType;
+use similari::trackers::visual_sort::options::VisualSortOptions;
+use similari::trackers::visual_sort::simple_api::VisualSort;
+use similari::trackers::visual_sort::VisualSortObservation;
+use similari::utils::bbox::BoundingBox;
+use std::collections::HashMap;
+use std::sync::mpsc;
+use std::time::Duration;
+
+/// the same multi-scene history (objects with their own look, sometimes jumping far away so that only appearance can
+/// re-identify them) through the visual batch tracker and the simple visual tracker: same grouping per scene up to a
+/// consistent renaming of ids, same epochs / lengths / voting types; one result per scene of a batch
+fn history(dshards: usize, vshards: usize, seed: u64, steps: usize) {
+    let opts = VisualSortOptions::default().max_idle_epochs(3).kept_history_length(2).visual_max_observations(3)
+        .visual_minimal_track_length(2).visual_min_votes(1).visual_minimal_quality_use(0.5).visual_minimal_quality_collect(0.5)
+        .positional_metric(PositionalMetricType::IoU(0.3)).visual_metric(VisualSortMetricType::Euclidean(1.0));
+    let mut b = BatchVisualSort::new(dshards, vshards, &opts);
+    let mut s = VisualSort::new(dshards, &opts);
+    let looks: Vec<Vec<f32>> = (0..3).map(|p| vec![10.0 * p as f32, 1.0]).collect();
+    let mut rename: HashMap<u64, u64> = HashMap::new();
+    let mut used: HashMap<u64, u64> = HashMap::new();
+    let mut rng = seed.wrapping_mul(6364136223846793005).wrapping_add(1442695040888963407);
+    for step in 0..steps {
+        rng = rng.wrapping_mul(6364136223846793005).wrapping_add(1442695040888963407);
+        let ctx = format!("distance shards {} voting shards {} seed {} step {}", dshards, vshards, seed, step);
+        let mut per_scene: Vec<(u64, Vec<VisualSortObservation>)> = vec![];
+        let mut xcs: HashMap<u64, Vec<f32>> = HashMap::new();
+        for scene in 0..2u64 {
+            if (rng >> (20 + scene)) & 1 == 0 { continue; }
+            let mask = (rng >> (30 + 4 * scene)) % 8;
+            let obs: Vec<VisualSortObservation> = (0..3usize).filter(|p| (mask >> p) & 1 == 1).map(|p| {
+                let jump = if (rng >> (40 + p)) % 5 == 0 { 5000.0 } else { 0.0 };
+                let with_f = (rng >> (45 + p)) & 1 == 1;
+                let bb = BoundingBox::new(1000.0 * p as f32 + jump + 0.5 * step as f32, 3.0 * scene as f32, 10.0, 20.0).as_xyaah();
+                xcs.entry(scene).or_default().push(bb.xc);
+                VisualSortObservation::new(if with_f { Some(&looks[p][..]) } else { None }, Some(if (rng >> (50 + p)) & 1 == 1 { 0.9 } else { 0.2 }), bb, Some(step as i64 * 10 + p as i64))
+            }).collect();
+            if !obs.is_empty() { per_scene.push((scene, obs)); }
+        }
+        if per_scene.is_empty() { continue; }
+        let (mut req, res) = PredictionBatchRequest::<VisualSortObservation>::new();
+        for (scene, obs) in per_scene.iter() { for o in obs.iter() { req.add(*scene, o.clone()); } }
+        assert_eq!(res.batch_size(), per_scene.len(), "batch size = scenes of the batch ({})", ctx);
+        b.predict(req);
+        let mut got: HashMap<u64, Vec<SortTrack>> = HashMap::new();
+        for _ in 0..per_scene.len() {
+            let (scene, recs) = res.get();
+            assert!(got.insert(scene, recs).is_none(), "two results for one scene ({})", ctx);
+        }
+        assert!(!res.ready(), "more results than scenes ({})", ctx);
+        for (scene, obs) in per_scene.iter() {
+            let want = s.predict_with_scene(*scene, obs);
+            let have = got.get(scene).unwrap_or_else(|| panic!("no result for scene {} ({})", scene, ctx));
+            assert_eq!(have.len(), obs.len(), "one record per detection ({})", ctx);
+            for ((h, w), x) in have.iter().zip(want.iter()).zip(xcs[scene].iter()) {
+                assert!((h.observed_bbox.xc - *x).abs() < 1e-6, "records in submission order ({})", ctx);
+                assert_eq!((h.scene_id, h.epoch, h.length, h.custom_object_id), (w.scene_id, w.epoch, w.length, w.custom_object_id), "scene / epoch / length / custom id as the simple tracker ({})", ctx);
+                assert_eq!(format!("{:?}", h.voting_type), format!("{:?}", w.voting_type), "voting type as the simple tracker ({})", ctx);
+                match rename.get(&h.id) {
+                    Some(x) => assert_eq!(*x, w.id, "same grouping into tracks as the simple tracker ({})", ctx),
+                    None => { assert!(used.insert(w.id, h.id).is_none(), "same grouping: simple id {} already matched ({})", w.id, ctx); rename.insert(h.id, w.id); }
+                }
+            }
+        }
+        for scene in 0..2u64 { assert_eq!(b.current_epoch_with_scene(scene), s.current_epoch_with_scene(scene), "epochs per scene ({})", ctx); }
+    }
+}
+
+#[test]
+fn replay() {
+    for (d, v) in [(1usize, 1usize), (2, 1), (1, 2), (2, 3)] { for seed in 0..6u64 {
+        let (tx, rx) = mpsc::channel();
+        std::thread::spawn(move || { history(d, v, seed, 40); let _ = tx.send(()); });
+        match rx.recv_timeout(Duration::from_secs(120)) {
+            Ok(()) => {}
+            Err(mpsc::RecvTimeoutError::Timeout) => panic!("no completion within 120 s (deadlock / lost result): shards {} voting {} seed {}", d, v, seed),
+            Err(mpsc::RecvTimeoutError::Disconnected) => panic!("the history failed: shards {} voting {} seed {}", d, v, seed),
+        }
+    } }
+}
+'''
+
+
+def replay_visual_batch(cex, v, vm):
+    return VISUAL_BATCH_REPLAY
+
+
 # ---- the visual batch tracker: same protocol, the VisualSORT predict step's oracle (props/stepvisual.py)
 import stepvisual as _v
 VFUNCS = ["similari::trackers::visual_sort::batch_api::BatchVisualSort::predict", "similari::trackers::visual_sort::batch_api::voting_thread"] + FUNCS[2:3] + _v.FUNCS[1:]
-for (nd, ns, nv, mon, tier, lite) in [(1, 0, 1, 'none', 'quick', False), (1, 1, 1, 'done', 'quick', True), (0, 1, 1, 'none', 'quick', False), (1, 1, 2, 'none', 'thorough', False)]:
+for (nd, ns, nv, mon, tier, lite) in [(1, 0, 1, 'none', 'quick', False), (1, 1, 1, 'done', 'quick', True), (1, 1, 2, 'none', 'thorough', True)]:
     MIR.append(MQ("step_batch_visual_d%d_t%d_v%d_%s" % (nd, ns, nv, mon), tier, _v.mk_step(nd, ns, lite=lite, driver=mk_driver(nv, mon, visual=True)),
                   "one BatchVisualSort::predict call (one scene) from an arbitrary valid tracker state satisfies the oracle of the simple VisualSORT predict step (records, gates, "
                   "appearance / positional voting, gallery, ids, epochs) - plus: one result per scene, tagged with its scene; the busy monitor returns to zero; no wait forever",
                   "%d detections, %d stored tracks, %d voting thread(s), previous batch: %s; 1 shard; IoU + Euclidean mode; option grids as in the simple VisualSORT step" % (nd, ns, nv, mon),
-                  VFUNCS, spec_calls=_v._calls, replay=None, max_paths=200000, timeout=3000))
+                  VFUNCS, spec_calls=_v._calls, replay=replay_visual_batch, max_paths=400000, timeout=3000, opts={'map_order': 'insertion'}))
 
 
 # ---- from BatchSort::new: a fresh tracker built by the real constructor (real TrackStore::new, real thread bodies recorded by
